@@ -377,7 +377,7 @@ pub fn execute(plan: Plan, full: bool) -> RunResult {
     jsonpath_rust::verif::set_hook(hook);
     let _ = hook;
     install_panic_hook();
-    let values: Vec<Value> = plan.contents.iter().map(|t| serde_json::from_str(t).expect("content json")).collect();
+    let values: Vec<Value> = plan.contents.iter().map(|t| gen::content_value(t)).collect();
     if sim_repr(plan.repr) {
         simdoc::set_personality(Personality(plan.repr - 1));
     }
@@ -531,7 +531,7 @@ pub fn cold_main() -> i32 {
     };
     install_panic_hook();
     std::env::set_var("VERIF_QUIET_PANICS", "1");
-    let v: Value = serde_json::from_str(&req.content).expect("content json");
+    let v: Value = gen::content_value(&req.content);
     if sim_repr(req.repr) {
         simdoc::set_personality(Personality(req.repr - 1));
     }
@@ -815,6 +815,24 @@ pub fn gen_corpus_with(seed: u64, n_fam: usize, q_per_fam: usize, adv: bool) -> 
         let names: &[&str] = if adv && f % 4 == 3 { gen::NAMES_ADV } else { gen::NAMES_PLAIN };
         let p = DocParams { max_nodes: 8 + rng.below(23), max_depth: 1 + rng.below(4), names, max_width: 4, long_arrays: true };
         let mut base = gen::gen_doc(&mut rng, &p);
+        if adv && n_fam >= 8 && f == 1 {
+            // the deep family: values nested deeper than 128 levels (hand-built; serde_json cannot parse
+            // them), their small twin, and descendant queries whose results stay small
+            let mut fam = vec![];
+            for t in ["#deep:140:8", "#deep:133:3", "{\"a\":{\"c\":1},\"b0\":{\"a\":{\"a\":{\"c\":2}}},\"c\":3}"] {
+                contents.push(t.to_string());
+                fam.push(contents.len() - 1);
+            }
+            let mut fq = vec![];
+            for q in ["$..c", "$..[?@.c]", "$.b0..c", "$..c[?@>0]", "$.c", "$..b1..c", "$[?@..c]", "$..[?@.c>=0].c", "$.b0.a.a..c"] {
+                queries.push(q.to_string());
+                fq.push(queries.len() - 1);
+                q_other_family.push(f);
+            }
+            families.push(fam);
+            fam_queries.push(fq);
+            continue;
+        }
         let special = f % 2 == 0;
         if special {
             // the shape the extension functions, regex filters and root-dependent filters are selective on
@@ -947,7 +965,11 @@ pub fn gen_plan_opt(c: &Corpus, run_seed: u64, allow_stress: bool) -> (Plan, Pla
     };
     for s in 0..n_slots {
         // a later slot often repeats an earlier family: equal or nearly equal documents live together
-        let f = if s > 0 && rng.chance(1, 2) { *rng.pick(&fams_used) } else if stress { rng.below(c.families.len().min(3)) } else { rng.below(c.families.len()) };
+        let mut f = if s > 0 && rng.chance(1, 2) { *rng.pick(&fams_used) } else if stress { rng.below(c.families.len().min(3)) } else { rng.below(c.families.len()) };
+        // the deep family is expensive: take it one time in three of what a uniform draw would
+        if c.contents[c.families[f][0]].starts_with("#deep") && !fams_used.contains(&f) && rng.chance(2, 3) {
+            f = rng.below(c.families.len());
+        }
         if !fams_used.contains(&f) {
             fams_used.push(f);
         }
@@ -1156,6 +1178,13 @@ pub fn gen_plan_opt(c: &Corpus, run_seed: u64, allow_stress: bool) -> (Plan, Pla
     for f in &faults {
         if let Some(s) = f.site {
             site_mask |= 1u64 << s;
+        }
+    }
+    // a deep document has a thousand nodes on one path: mostly keep the per-node schedule points off
+    let has_deep = content_map.iter().any(|ci| c.contents[*ci].starts_with("#deep"));
+    if has_deep && rng.chance(9, 10) {
+        for s in [3u32, 4, 5, 6, 12] {
+            site_mask &= !(1u64 << s);
         }
     }
     let thread_per_op = rng.chance(1, 8);
